@@ -68,6 +68,18 @@ Fixpoint unravel (l : list nat) : list (nat * nat) :=
 Definition type_weights (weighted : bool) (ws : list Z) : list Z :=
   if weighted then ws else map (fun w => if (w =? 0)%Z then 0%Z else 1%Z) ws.
 
+(** Rational weights are given by integer numerators over a common positive denominator [den]
+    (weight k = ws[k] / den; entries of the model are then in units of 1/den as well — every step
+    of from_edge_array is additive in the weights).
+    The typing step [if all(weights == weights.astype(int)): weights = weights.astype(int)] is decided
+    exactly: the cast happens iff every weight is an integer, so it never changes a value, only the
+    dtype ([int] instead of [float]). *)
+Definition weights_integral (den : Z) (ws : option (list Z)) : bool :=
+  match ws with
+  | None => true                                  (* np.ones *)
+  | Some l => forallb (fun w => (w mod den =? 0)%Z) l
+  end.
+
 Section Ingest.
   Context {id : Type}.
   Context (ideqb : id -> id -> bool).
